@@ -107,6 +107,13 @@ func cliMake(args []string) int {
 	if rng.Intn(2) == 0 {
 		sort.Ints(c.Ids)
 	}
+	if rng.Intn(8) == 0 {
+		// a tile matrix requested twice: still exactly one target file per requested tile matrix
+		c.Ids = append(c.Ids, c.Ids[rng.Intn(len(c.Ids))])
+		if rng.Intn(2) == 0 {
+			c.Ids[0], c.Ids[len(c.Ids)-1] = c.Ids[len(c.Ids)-1], c.Ids[0]
+		}
+	}
 	c.PageSize = []int{1, 2, 3, 5, 7, 1000}[rng.Intn(6)]
 	c.Keep, c.Iog, c.Rwo = rng.Intn(2) == 0, rng.Intn(2) == 0, rng.Intn(3) == 0
 	c.Overwrite = rng.Intn(2) == 0
@@ -162,7 +169,7 @@ func cliMake(args []string) int {
 	if *mode == "tiny" {
 		nt = 1
 	}
-	kinds := []gsgpkg.GeometryType{gsgpkg.Polygon, gsgpkg.MultiPolygon, gsgpkg.Point, gsgpkg.Linestring, gsgpkg.MultiPoint, gsgpkg.MultiLinestring}
+	kinds := []gsgpkg.GeometryType{gsgpkg.Polygon, gsgpkg.MultiPolygon, gsgpkg.Point, gsgpkg.Linestring, gsgpkg.MultiPoint, gsgpkg.MultiLinestring, gsgpkg.GeometryCollection}
 	for ti := 0; ti < nt; ti++ {
 		gt := kinds[rng.Intn(len(kinds))]
 		if ti == 0 {
